@@ -72,7 +72,14 @@ def lp_chain(w):
 def state_key(w):
     from metador_core.container import MetadorContainer
 
-    return (w.name, "C" if isinstance(w, MetadorContainer) else ("G" if h5ops.is_group(w) else "D"), tuple(sorted(flags_of(w))), lp_chain(w))
+    # deduplication only: the flags of the container object the wrapper hangs on (a restricted view handed out by .file
+    # is a different origin than the user's container, although name and own flags agree)
+    try:
+        c = w if isinstance(w, MetadorContainer) else w._self_container
+        cflags = tuple(sorted(flags_of(c)))
+    except Exception:
+        cflags = None
+    return (w.name, "C" if isinstance(w, MetadorContainer) else ("G" if h5ops.is_group(w) else "D"), tuple(sorted(flags_of(w))), lp_chain(w), cflags)
 
 
 def navigations(w, all_paths):
@@ -111,6 +118,15 @@ def navigations(w, all_paths):
     yield ("metador.query-node", lambda: list(w.metador.query("vt.aa", node=w)))
     for f in FLAGS:
         yield ("restrict-false", lambda f=f: [w.restrict(**{f: False})])
+
+    def acl_mut():
+        d = w.acl  # what the user gets is information, not a handle on the restrictions
+        for k in list(d):
+            d[k] = False
+        d.clear()
+        return [w]
+
+    yield ("restrict-acl-dict-mutated", acl_mut)
 
 
 MORE = [(f,) for f in FLAGS] + [tuple(FLAGS)]
